@@ -561,9 +561,9 @@ func (f *followingQuery) Select(t iterator) NodeNavigator {
 									Predicate: f.Predicate,
 								}
 							}
-							t.Current().MoveTo(node)
 						}
-						if node := q.Select(t); node != nil {
+						// the subtree is walked from node without moving the shared context cursor.
+						if node := q.Select(iteratorFunc(func() NodeNavigator { return node })); node != nil {
 							f.posit = q.posit
 							return node
 						}
@@ -652,9 +652,9 @@ func (p *precedingQuery) Select(t iterator) NodeNavigator {
 								Input:     &contextQuery{},
 								Predicate: p.Predicate,
 							}
-							t.Current().MoveTo(node)
 						}
-						if node := q.Select(t); node != nil {
+						// the subtree is walked from node without moving the shared context cursor.
+						if node := q.Select(iteratorFunc(func() NodeNavigator { return node })); node != nil {
 							p.posit++
 							return node
 						}
